@@ -860,7 +860,7 @@ where
             hashbrown::hash_map::Entry::Occupied(o) => {
                 if let Some(err) = o.get() {
                     let err = err.clone();
-                    inp.add_alt_err(&before.inner /*&err.pos*/, err.err);
+                    inp.add_alt_err(&err.pos, err.err);
                 } else {
                     let err_span = inp.span_since(&before);
                     // TODO: Is this an appropriate way to handle infinite recursion?
@@ -873,13 +873,21 @@ where
             }
         }
 
+        // Set the pending alt aside so that only the alt generated by this parser ends up in the memo table
+        let old_alt = inp.take_alt();
         let res = self.parser.go::<M>(inp);
+        let new_alt = inp.take_alt();
 
         if res.is_err() {
-            let alt = inp.take_alt();
-            inp.memos.insert(key, alt);
+            inp.memos.insert(key, new_alt.clone());
         } else {
             inp.memos.remove(&key);
+        }
+
+        // Both the alt that was pending before and this parser's own alt remain valid
+        inp.errors.alt = old_alt;
+        if let Some(new_alt) = new_alt {
+            inp.add_alt_err(&new_alt.pos, new_alt.err);
         }
 
         res
